@@ -1016,13 +1016,13 @@ def eval_dyad_take(a, b, backend):
     b = backend.str_to_chr_arr(b) if j else np_backend.asarray(b)
     abs_a = np_backend.abs(a)
     aa = int(abs_a) if hasattr(abs_a, 'item') else abs_a  # Convert tensor to int
-    b_size = backend.array_size(b)
+    b_size = len(b)  # elements of the list (rows of a matrix), not scalars
     if b_size == 0:
         # Handle empty array/string case
         r = b
     elif aa > b_size:
-        b = np_backend.tile(b, aa // len(b))
-        b = np_backend.concatenate((b, b[:aa-backend.array_size(b)]) if a > 0 else (b[-(aa-backend.array_size(b)):], b))
+        b = np_backend.tile(b, (aa // b_size,) + (1,) * (b.ndim - 1))
+        b = np_backend.concatenate((b, b[:aa-len(b)]) if a > 0 else (b[-(aa-len(b)):], b))
         r = b[a:] if a < 0 else b[:a]
     else:
         r = b[a:] if a < 0 else b[:a]
